@@ -110,10 +110,12 @@ Definition next_id (t : table) : Z := max_id t + 1.
 Inductive cond :=
 | CStruct (r : rec)                 (* Where(Acct{...}) : equality on the non-zero fields *)
 | CMap (kv : list (col * val))      (* Where(map[string]interface{}{...}) : equality on every key *)
-| CAgeGt (k : Z).                   (* Where("age > ?", k) : raw SQL, initialises nothing *)
+| CAgeGt (k : Z)                    (* Where("age > ?", k) : raw SQL, initialises nothing *)
+| CUnscoped.                        (* Unscoped() : no condition; Statement.Unscoped = true, which travels with
+                                       the statement exactly like the WHERE clause (getInstance, clone) *)
 
 Definition cond_pairs (c : cond) : list (col * val) :=
-  match c with CStruct r => struct_pairs r | CMap kv => kv | CAgeGt _ => [] end.
+  match c with CStruct r => struct_pairs r | CMap kv => kv | CAgeGt _ | CUnscoped => [] end.
 Definition pair_holds (r : rec) (p : col * val) : bool := val_eqb (get_col (fst p) r) (snd p).
 Definition cond_holds (r : rec) (c : cond) : bool :=
   match c with
@@ -122,14 +124,20 @@ Definition cond_holds (r : rec) (c : cond) : bool :=
   end.
 Definition conds_hold (cs : list cond) (r : rec) : bool := forallb (cond_holds r) cs.
 
-(* Limit(1).Order(primary key) + soft-delete clause: first live matching row in key order *)
+(* Statement.Unscoped: the soft-delete clauses (deleted_at IS NULL on queries and updates) are left out *)
+Definition unscoped (cs : list cond) : bool :=
+  existsb (fun c => match c with CUnscoped => true | _ => false end) cs.
+Definition visible (cs : list cond) (r : rec) : bool := unscoped cs || live r.
+
+(* Limit(1).Order(primary key) + soft-delete clause: first live (Unscoped: first) matching row in key order *)
 Definition first_match (t : table) (cs : list cond) : option rec :=
-  find (fun r => live r && conds_hold cs r) t.
+  find (fun r => visible cs r && conds_hold cs r) t.
 
 (* assignInterfacesToValue(where.Exprs): every Eq of the WHERE clause, in order; the soft-delete
-   scope contributes deleted_at = NULL last *)
+   scope (unless Unscoped) contributes deleted_at = NULL last *)
 Definition apply_conds (cs : list cond) (r : rec) : rec :=
-  set_col CDel VNull (fold_left (fun r c => set_pairs (cond_pairs c) r) cs r).
+  let r' := fold_left (fun r c => set_pairs (cond_pairs c) r) cs r in
+  if unscoped cs then r' else set_col CDel VNull r'.
 
 (* ---- Attrs / Assign arguments ---------------------------------------------------------- *)
 Inductive arg :=
@@ -299,10 +307,11 @@ Definition first_or_create (keep : bool) (t : table) (now : Z) (h : handle) (ic 
   | Some r =>
       match h_assigns h with
       | [] => mk_result r 0 false 0 t
-      | _ =>   (* tx.Model(dest).Updates(map): chain conditions + dest's key + deleted_at IS NULL *)
+      | _ =>   (* tx.Model(dest).Updates(map): chain conditions + dest's key + deleted_at IS NULL (unless
+                  the chain is Unscoped) *)
           let m := assign_map (h_assigns h) in
           let f := fun x => with_uat now (set_pairs m x) in
-          let hit := fun x => conds_hold (h_where tx) x && (r_id x =? r_id r) && live x in
+          let hit := fun x => conds_hold (h_where tx) x && (r_id x =? r_id r) && visible (h_where tx) x in
           mk_result (f r) (count_where hit t) false 1 (upd_where hit f t)
       end
   end.
